@@ -196,8 +196,18 @@ fn async_timer_task(op: &Value) -> Result<Option<Value>, String> {
     }
     let task = AsyncTimerKeyboardTask::new(runtime.clone());
     let mut driver = AsyncDriver::new();
+    // "bounded": the task is started for a fixed number of cycles (run_for) instead of for ever (run)
+    let bounded = cfg.get("bounded").and_then(|x| x.as_bool()).unwrap_or(false);
+    let total: u64 = segs
+        .iter()
+        .map(|seg| seg.get(0).and_then(|x| x.as_u64()).unwrap_or(0))
+        .sum();
     driver.spawn(async move {
-        task.run().await;
+        if bounded {
+            task.run_for(total + 4).await;
+        } else {
+            task.run().await;
+        }
     });
     let mut out: Vec<Value> = Vec::new();
     for seg in segs {
